@@ -17,7 +17,7 @@ EXTRACT = os.path.join(VERIF, "tools", "vx-extract", "target", "release", "vx-ex
 BUILD = os.path.join(VERIF, "build")
 
 SECTION_RE = re.compile(
-    r'^(ret|requires|ensures|decreases|returns|prefix|suffix|loop\s+\d+|before\s+".*"(?:@\d+/\d+)?|after\s+".*"(?:@\d+/\d+)?|replace\s+".*")\s*:\s*(.*)$'
+    r'^(ret|requires|ensures|decreases|returns|prefix|suffix|loop\s+\d+\s+end|loop\s+\d+|before\s+".*"(?:@\d+/\d+)?|after\s+".*"(?:@\d+/\d+)?|replace\s+".*")\s*:\s*(.*)$'
 )
 TAG_RE = re.compile(r"\[([A-Z]\d\d(?:\.\w+)?(?:\s+[A-Z]\d\d(?:\.\w+)?)*)\]")
 
@@ -72,6 +72,8 @@ def parse_vspec(path):
             c["ret"] = text.strip()
         elif sec in ("requires", "ensures", "decreases", "returns", "prefix", "suffix"):
             c[sec] = (c.get(sec, "") + "\n" + text) if c.get(sec) else text
+        elif sec.startswith("loop") and sec.endswith("end"):
+            c.setdefault("loop_ends", {})[str(int(sec.split()[1]))] = text
         elif sec.startswith("loop"):
             c.setdefault("loops", {})[str(int(sec.split()[1]))] = text
         else:
@@ -136,6 +138,8 @@ def contract_to_request(c, mutate_false=False):
         req["loops"] = c["loops"]
     if c.get("inserts"):
         req["inserts"] = c["inserts"]
+    if c.get("loop_ends"):
+        req["loop_ends"] = c["loop_ends"]
     if c.get("prefix"):
         req["body_prefix"] = c["prefix"]
     if c.get("suffix"):
